@@ -544,3 +544,167 @@ pub fn validation_cols() -> Vec<ColDef> {
     v.push(s);
     v
 }
+
+// ------------------------------------------------------------------------------------
+// property sets: independent parser and writer (OLE property set layout only)
+
+#[derive(Clone, Debug, PartialEq)]
+pub enum PVal {
+    Empty,
+    Null,
+    I1(i8),
+    I2(i16),
+    I4(i32),
+    Str(Vec<u8>),
+    Time(u64),
+}
+
+pub fn parse_propset(d: &[u8]) -> Option<BTreeMap<u32, PVal>> {
+    if u16at(d, 0)? != 0xfffe {
+        return None;
+    }
+    let so = u32at(d, 44)? as usize;
+    let count = u32at(d, so + 4)? as usize;
+    let mut out = BTreeMap::new();
+    for k in 0..count {
+        let id = u32at(d, so + 8 + 8 * k)?;
+        let p = so + u32at(d, so + 12 + 8 * k)? as usize;
+        let v = match u32at(d, p)? {
+            0 => PVal::Empty,
+            1 => PVal::Null,
+            2 => PVal::I2(u16at(d, p + 4)? as u16 as i16),
+            3 => PVal::I4(u32at(d, p + 4)? as i32),
+            16 => PVal::I1(*d.get(p + 4)? as i8),
+            30 => {
+                let n = u32at(d, p + 4)? as usize;
+                PVal::Str(d.get(p + 8..p + 8 + n.saturating_sub(1))?.to_vec())
+            }
+            64 => PVal::Time(u32at(d, p + 4)? as u64 | (u32at(d, p + 8)? as u64) << 32),
+            _ => return None,
+        };
+        out.insert(id, v);
+    }
+    Some(out)
+}
+
+pub struct PropLayout {
+    pub version: u16,
+    pub os: u16,
+    pub os_version: u16,
+    pub section_gap: usize,   // extra bytes between the header and the section
+    pub table_order: Vec<usize>, // permutation: order of the (id, offset) pairs
+    pub value_order: Vec<usize>, // permutation: order of the values in the value area
+    pub gaps: Vec<usize>,        // padding (multiples of 4) before each value
+}
+
+pub fn write_propset(props: &[(u32, PVal)], l: &PropLayout) -> Vec<u8> {
+    let mut d: Vec<u8> = vec![0xfe, 0xff];
+    d.extend_from_slice(&l.version.to_le_bytes());
+    d.extend_from_slice(&l.os_version.to_le_bytes());
+    d.extend_from_slice(&l.os.to_le_bytes());
+    d.extend_from_slice(&[0u8; 16]);
+    d.extend_from_slice(&1u32.to_le_bytes());
+    d.extend_from_slice(&[0xe0, 0x85, 0x9f, 0xf2, 0xf9, 0x4f, 0x68, 0x10, 0xab, 0x91, 0x08, 0x00, 0x2b, 0x27, 0xb3, 0xd9]);
+    let so = 48 + l.section_gap;
+    d.extend_from_slice(&(so as u32).to_le_bytes());
+    d.extend(std::iter::repeat(0xcc).take(l.section_gap));
+    let enc = |v: &PVal| -> Vec<u8> {
+        let mut b = vec![];
+        match v {
+            PVal::Empty => b.extend_from_slice(&0u32.to_le_bytes()),
+            PVal::Null => b.extend_from_slice(&1u32.to_le_bytes()),
+            PVal::I1(x) => {
+                b.extend_from_slice(&16u32.to_le_bytes());
+                b.extend_from_slice(&[*x as u8, 0, 0, 0]);
+            }
+            PVal::I2(x) => {
+                b.extend_from_slice(&2u32.to_le_bytes());
+                b.extend_from_slice(&x.to_le_bytes());
+                b.extend_from_slice(&[0, 0]);
+            }
+            PVal::I4(x) => {
+                b.extend_from_slice(&3u32.to_le_bytes());
+                b.extend_from_slice(&x.to_le_bytes());
+            }
+            PVal::Str(s) => {
+                b.extend_from_slice(&30u32.to_le_bytes());
+                b.extend_from_slice(&((s.len() + 1) as u32).to_le_bytes());
+                b.extend_from_slice(s);
+                b.push(0);
+                while b.len() % 4 != 0 {
+                    b.push(0);
+                }
+            }
+            PVal::Time(t) => {
+                b.extend_from_slice(&64u32.to_le_bytes());
+                b.extend_from_slice(&t.to_le_bytes());
+            }
+        }
+        b
+    };
+    let n = props.len();
+    let mut offsets = vec![0usize; n];
+    let mut area: Vec<u8> = vec![];
+    let base = 8 + 8 * n;
+    for (k, &i) in l.value_order.iter().enumerate() {
+        area.extend(std::iter::repeat(0u8).take(*l.gaps.get(k).unwrap_or(&0)));
+        offsets[i] = base + area.len();
+        area.extend(enc(&props[i].1));
+    }
+    let size = base + area.len();
+    d.extend_from_slice(&(size as u32).to_le_bytes());
+    d.extend_from_slice(&(n as u32).to_le_bytes());
+    for &i in &l.table_order {
+        d.extend_from_slice(&props[i].0.to_le_bytes());
+        d.extend_from_slice(&(offsets[i] as u32).to_le_bytes());
+    }
+    d.extend(area);
+    d
+}
+
+/// schema and rows as the format says (type word + optional _Validation row)
+pub fn expected_tables(d: &Decoded) -> BTreeMap<String, (Vec<ColDef>, Vec<Vec<V>>)> {
+    let mut out = BTreeMap::new();
+    let val = d.tables.get("_Validation");
+    for (name, (cols, rows)) in &d.tables {
+        if name == "_Tables" || name == "_Columns" {
+            continue;
+        }
+        let mut defs = vec![];
+        for (cn, bits) in cols {
+            let ct = if bits & 0x800 != 0 {
+                CT::Str((bits & 0xff) as usize)
+            } else if bits & 0xff == 4 {
+                CT::I32
+            } else {
+                CT::I16
+            };
+            let mut c = ColDef::new(cn, ct);
+            c.localizable = bits & 0x200 != 0;
+            c.nullable = bits & 0x1000 != 0;
+            c.key = bits & 0x2000 != 0;
+            if let Some((_, vrows)) = val {
+                for vr in vrows {
+                    if d.value(&vr[0]) == V::Str(name.clone()) && d.value(&vr[1]) == V::Str(cn.clone()) {
+                        if d.value(&vr[2]) == V::Str("Y".into()) {
+                            c.nullable = true;
+                        }
+                        if let (V::Int(a), V::Int(b)) = (d.value(&vr[3]), d.value(&vr[4])) {
+                            c.range = Some((a, b));
+                        }
+                        if let V::Str(cat) = d.value(&vr[7]) {
+                            c.cat = CATEGORIES.iter().find(|k| cat_spelling(k.0) == cat || k.0 == cat).map(|k| k.0);
+                        }
+                        if let V::Str(set) = d.value(&vr[8]) {
+                            c.enums = set.split(';').map(|x| x.to_string()).collect();
+                        }
+                    }
+                }
+            }
+            defs.push(c);
+        }
+        let vals: Vec<Vec<V>> = rows.iter().map(|r| r.iter().map(|c| d.value(c)).collect()).collect();
+        out.insert(name.clone(), (defs, vals));
+    }
+    out
+}
